@@ -296,6 +296,46 @@ func c12StringBatch(r *mon.Run, batches [][]string, bi int) {
 			}
 		}
 	}
+	// the literal as key and as value of a Dict (another rendering path: Dict keys are rendered for sorting first)
+	{
+		d := jen.Dict{}
+		wantKV := map[string]bool{}
+		for _, s := range strs[:min(len(strs), 60)] {
+			if !wantKV[s] {
+				wantKV[s] = true
+				d[jen.Lit(s)] = jen.Lit(s)
+			}
+		}
+		st := jen.Id("M").Values(d)
+		buf := &bytes.Buffer{}
+		var err error
+		if p, what := mon.Guard(func() { err = st.Render(buf) }); p || err != nil {
+			r.Violate("string-in-dict", c, "M{Lit(s): Lit(s), …} does not render: %v %s", err, what)
+		} else if e, perr := parser.ParseExpr(buf.String()); perr != nil {
+			r.Violate("string-in-dict", c, "M{Lit(s): Lit(s), …} does not parse: %v", perr)
+		} else if cl, _ := e.(*ast.CompositeLit); cl == nil || len(cl.Elts) != len(wantKV) {
+			r.Violate("string-in-dict", c, "M{Lit(s): Lit(s), …} has %d elements, want %d", lenElts(cl), len(wantKV))
+		} else {
+			for i, el := range cl.Elts {
+				kv, _ := el.(*ast.KeyValueExpr)
+				var kl, vl *ast.BasicLit
+				if kv != nil {
+					kl, _ = kv.Key.(*ast.BasicLit)
+					vl, _ = kv.Value.(*ast.BasicLit)
+				}
+				if kl == nil || vl == nil || kl.Kind != token.STRING || vl.Kind != token.STRING {
+					r.Violate("string-in-dict", c, "element %d of M{Lit(s): Lit(s), …} is not string literal: string literal\n%s", i, mon.Trunc(buf.String(), 600))
+					break
+				}
+				k, e1 := strconv.Unquote(kl.Value)
+				v, e2 := strconv.Unquote(vl.Value)
+				if e1 != nil || e2 != nil || k != v || !wantKV[k] {
+					r.Violate("string-in-dict", c, "element %d of M{Lit(s): Lit(s), …} is %s: %s — key %q and value %q should both be one of the given strings", i, mon.Trunc(kl.Value, 80), mon.Trunc(vl.Value, 80), mon.Trunc(k, 80), mon.Trunc(v, 80))
+				}
+			}
+		}
+		r.Count("strings_as_dict_key_and_value", int64(len(wantKV)))
+	}
 	for _, s := range strs {
 		r.Eval("s|"+s, true)
 	}
@@ -505,6 +545,44 @@ func c12RuneBatch(r *mon.Run, batches [][]rune, bi int) {
 			r.Violate("rune-literal", mon.Case{Gen: "runes", Seed: r.Seed, Index: int64(bi), Extra: mon.J(map[string]interface{}{"rune": fmt.Sprintf("%#x", runes[i])})}, "%s(%#x): %s", mname, runes[i], p)
 		}
 	}
+	// runes as Dict keys (and values)
+	{
+		d := jen.Dict{}
+		want := map[rune]bool{}
+		for _, ru := range runes[:min(len(runes), 80)] {
+			if !want[ru] {
+				want[ru] = true
+				d[jen.LitRune(ru)] = jen.LitRune(ru)
+			}
+		}
+		st := jen.Id("M").Values(d)
+		buf := &bytes.Buffer{}
+		var err error
+		if p, what := mon.Guard(func() { err = st.Render(buf) }); p || err != nil {
+			r.Violate("rune-in-dict", c, "M{LitRune(r): LitRune(r), …} (batch starting at %#x) does not render: %v %s", runes[0], err, what)
+		} else if e, perr := parser.ParseExpr(buf.String()); perr != nil {
+			r.Violate("rune-in-dict", c, "M{LitRune(r): LitRune(r), …} does not parse: %v", perr)
+		} else if cl, _ := e.(*ast.CompositeLit); cl == nil || len(cl.Elts) != len(want) {
+			r.Violate("rune-in-dict", c, "M{LitRune(r): LitRune(r), …} has %d elements, want %d", lenElts(cl), len(want))
+		} else {
+			for i, el := range cl.Elts {
+				kv, _ := el.(*ast.KeyValueExpr)
+				var kl, vl *ast.BasicLit
+				if kv != nil {
+					kl, _ = kv.Key.(*ast.BasicLit)
+					vl, _ = kv.Value.(*ast.BasicLit)
+				}
+				if kl == nil || vl == nil || kl.Kind != token.CHAR || vl.Kind != token.CHAR || kl.Value != vl.Value {
+					r.Violate("rune-in-dict", c, "element %d of M{LitRune(r): LitRune(r), …} is not rune literal: the same rune literal\n%s", i, mon.Trunc(buf.String(), 400))
+					break
+				}
+				if k, _, _, e1 := strconv.UnquoteChar(kl.Value[1:len(kl.Value)-1], '\''); e1 != nil || !want[k] {
+					r.Violate("rune-in-dict", c, "element %d of M{LitRune(r): …} is %s, not one of the given runes", i, kl.Value)
+				}
+			}
+		}
+		r.Count("runes_as_dict_key_and_value", int64(len(want)))
+	}
 	for _, c := range runes {
 		r.Eval(fmt.Sprintf("r|%x", c), true)
 	}
@@ -515,10 +593,28 @@ func c12RuneBatch(r *mon.Run, batches [][]rune, bi int) {
 
 func c12Bytes(r *mon.Run) {
 	c := mon.Case{Gen: "bytes", Seed: r.Seed}
-	for mode := 0; mode < 3; mode++ {
+	// neighbours: the File also imports a package that wants the name byte / uint8 / rune / string (as last path
+	// element, as alias, as real name) — the literal must still be a constant of type byte
+	neighbours := []string{"", "last:byte", "alias:byte", "name:byte", "last:uint8", "alias:uint8", "last:rune", "last:string", "alias:string"}
+	for mi := 0; mi < 3*len(neighbours); mi++ {
+		mode, nb := mi%3, neighbours[mi/3]
 		mname := []string{"LitByte", "LitByte+NoFormat", "LitByteFunc"}[mode]
 		f := jen.NewFile("p")
 		f.NoFormat = mode == 1
+		if nb != "" {
+			mname += " next to an import that wants the name " + nb
+			kind, word := strings.SplitN(nb, ":", 2)[0], strings.SplitN(nb, ":", 2)[1]
+			path := "example.com/codec/" + word
+			switch kind {
+			case "alias":
+				path = "example.com/codec/zz"
+				f.ImportAlias(path, word)
+			case "name":
+				path = "example.com/codec/zz"
+				f.ImportName(path, word)
+			}
+			f.Var().Id("Ref").Op("=").Qual(path, "Sym")
+		}
 		for b := 0; b < 256; b++ {
 			b := byte(b)
 			if mode == 2 {
@@ -542,6 +638,7 @@ func c12Bytes(r *mon.Run) {
 	}
 	r.EvalN("byte", 256, true)
 	r.Count("bytes", 256)
+	r.Count("byte_files_with_a_neighbouring_import_wanting_a_type_name", int64(3*(len(neighbours)-1)))
 }
 
 func judgeByteSource(src []byte) (map[int]string, string) {
